@@ -1098,7 +1098,9 @@ MANIFEST = {
     "category": "proof",
     "design_ref": "DESIGN.md 2.7",
     "text": "Lean 4 theorems over an executable model of StateSpace::interpolate for every shipped state space (end points, "
-            "bounds, re-parameterisation, proportional distance; arbitrarily nested weighted compounds by structural induction), "
+            "bounds, re-parameterisation incl. SO(3) slerp composition and the Mobius seam, proportional distance incl. SO(3) outside "
+            "the arcLength clamp band, weight-irrelevance, fixed coordinates, a general soundness theorem for the aliasing rw-set "
+            "obligation; arbitrarily nested weighted compounds by structural induction), "
             "tied to the C++ by bit-exact lock-step runs of the real libompl against the compiled model with the output aliased "
             "to neither / from / to, plus the property itself evaluated on the implementation's outputs.",
     "note": "Trusted: Lean kernel, the three standard axioms, the hand-written model outside the inputs the correspondence explored, "
